@@ -218,6 +218,9 @@ class OwnDomain(Domain):
             # the default (recurse=True) rebuilds nested attrs instances, dicts and lists
             shallow = any(k.arg == "recurse" and isinstance(k.value, ast.Constant) and k.value.value is False for k in getattr(node, "keywords", []))
             return it.new(st, "dict", node, elem=V(args[0].tag) if shallow else V(F), tag=F)
+        if nm in ("numpy.array", "numpy.require") and args and any(k.arg == "copy" and isinstance(k.value, ast.Constant) and k.value.value is False for k in getattr(node, "keywords", [])):
+            # np.array(x, copy=False): a view of the argument whenever no conversion is needed
+            return V(args[0].tag, args[0].ref)
         if nm in VIEW_EXTERNALS and args:
             r = it.default_external(nm, args, kwargs, node, st)
             if r is not None:
@@ -244,6 +247,8 @@ class OwnDomain(Domain):
         return V(U)
 
     def call_method(self, it, base, name, args, kwargs, node, st):
+        if "out" in kwargs and has_owner(kwargs["out"].tag):
+            self._sink(it, node, "out=", kwargs["out"], f".{name}(..., out=<borrowed>) writes into the caller's array")
         o = it.obj(st, base)
         if name in MUTATING_METHODS:
             if has_owner(base.tag):
@@ -270,6 +275,14 @@ class OwnDomain(Domain):
             if self.track_globals and kind == "global":
                 self.sinks.append((func, node, "global-rebind", frozenset([("G", f"{func.module.name}.{key}")]), f"`global {key}` rebinding", [f.func.qualname for f in it.stack]))
             return
+        if self.track_globals and kind in ("attr", "subscript", "delattr", "del"):
+            # state kept on a function, class or module object (`f.cache = ...`, `LineIterator.count += 1`,
+            # `periodic.table[...] = ...`) outlives the call just like a module-level variable
+            bo = it.obj(st, base)
+            if bo is not None and bo.kind in ("func", "class", "module"):
+                name = bo.meta.get("qualname") or bo.meta.get("name") or "?"
+                self.sinks.append((func, node, "object-state", frozenset([("G", f"{bo.kind}:{name}")]), f"{'attribute' if 'attr' in kind else 'item'} store on the {bo.kind} object `{name}`: state that survives the call", [f.func.qualname for f in it.stack]))
+                return
         if kind == "aug":
             # x += y on a name: in-place for arrays/lists; harmless for scalars
             tgt = node.target
